@@ -13,7 +13,7 @@ K = lambda name, file, fn: dict(name=name, target=("oxidize-pdf-core/src/" + fil
 
 PROPS = {
     "C01": dict(
-        verus=["tokenizer", "runlength", "gss", "xrefstream", "glyf", "guards", "predictor", "pngrows", "flatten", "bounded", "asciihex", "ascii85", "rotate"],
+        verus=["tokenizer", "runlength", "gss", "xrefstream", "glyf", "guards", "predictor", "pngrows", "flatten", "bounded", "asciihex", "ascii85", "rotate", "pngunfilter"],
         standins=["a85hex"],
         kani=[K("c01_hex_digit_value", "parser/filters.rs", "hex_digit_value"),
               K("c01_calculate_offset_9_bytes_no_panic", "text/cmap.rs", "calculate_offset")],
@@ -43,6 +43,8 @@ PROPS = {
         not_decided="the glue: that decode_text_string is that per-byte map and that each emission site emits those bytes (String/iterator code outside both verifiers); UTF-16BE/BOM path of incremental_text_notes::pdf_text",
     ),
     "C24": dict(
+        verus=["pngunfilter"],
+        standins=["png-grid"],
         kani=[K("c24_paeth_predictor_png_spec", "graphics/png_decoder.rs", "paeth_predictor")],
         not_decided="inflate (dependency), unfilter_row pending, bit-depth expansion, palettes, tRNS, interlace, XObject assembly, SMask",
     ),
